@@ -202,6 +202,9 @@ func deepEdges(fn *ssa.Function, res resolver, spec gspec, depth int) []Edge {
 			}
 			if ok && n > 0 {
 				es = append(es, passErrNil(c)...)
+				if guardCallSink != nil { // `return helper(…)` one level further up propagates the guard as well
+					*guardCallSink = append(*guardCallSink, guardHit{c, "errnil"})
+				}
 			}
 			continue
 		}
@@ -216,6 +219,9 @@ func deepEdges(fn *ssa.Function, res resolver, spec gspec, depth int) []Edge {
 				}
 				if allProp {
 					es = append(es, passBool(c, 0, pol == "true")...)
+					if guardCallSink != nil {
+						*guardCallSink = append(*guardCallSink, guardHit{c, pol})
+					}
 					done = true
 				}
 			}
@@ -235,6 +241,9 @@ func deepEdges(fn *ssa.Function, res resolver, spec gspec, depth int) []Edge {
 				}
 				if ok && n > 0 {
 					es = append(es, passBool(c, 0, want)...)
+					if guardCallSink != nil {
+						*guardCallSink = append(*guardCallSink, guardHit{c, map[bool]string{true: "true", false: "false"}[want]})
+					}
 				}
 			}
 		}
